@@ -146,7 +146,7 @@ def audit_axioms(theorems, imports):
     res = {}
     cur = None
     text = out.replace("\n  ", " ").replace("\n ", " ")
-    for m in re.finditer(r"'([^']+)' depends on axioms: \[([^\]]*)\]|'([^']+)' does not depend on any axioms", text):
+    for m in re.finditer(r"'(\S+)' depends on axioms: \[([^\]]*)\]|'(\S+)' does not depend on any axioms", text):
         if m.group(1):
             res[m.group(1)] = [a.strip() for a in m.group(2).split(",") if a.strip()]
         else:
